@@ -137,10 +137,20 @@ class C06(Check):
             _, _, r = A.run_sym(case, S.ScriptedTL)
             return {"ok": S.un_sym_contract(r)}
         c1 = S.mk_sym_contract(S.ScriptedTL, case["c1"])
-        if op == "rename":
-            return {"ok": S.un_sym_contract(c1.rename_variable(Var(str(case["src"])), Var(str(case["dst"]))))}
-        if op == "copy":
-            return {"ok": S.un_sym_contract(c1.copy())}
+        if op in ("rename", "copy"):
+            # the contract the method is called on must come out of the call as it went in (its interface lists are what a
+            # careless in-place rename would edit: the receiver would then be ill formed, its constraints keeping the old name)
+            before = S.un_sym_contract(c1)
+            try:
+                r = c1.rename_variable(Var(str(case["src"])), Var(str(case["dst"]))) if op == "rename" else c1.copy()
+            finally:
+                after = S.un_sym_contract(c1)
+            try:
+                again = S.un_sym_contract(c1.copy())   # and must still be usable
+                usable = again == before
+            except Exception as e:  # noqa: BLE001
+                usable = f"{type(e).__name__}: {e}"
+            return {"ok": S.un_sym_contract(r), "recv_same": before == after, "recv_usable": usable}
         c2 = S.mk_sym_contract(S.ScriptedTL, case["c2"])
         return {"ok": bool(c1.refines(c2))}
 
@@ -180,6 +190,8 @@ class C06(Check):
             return None  # conflict variables / scripted failures: refusal is allowed
         if op == "refines":
             return None
+        if impl.get("recv_same") is False or impl.get("recv_usable", True) is not True:
+            return {"signature": f"iface:{op}-damages-receiver", "what": f"after {op} the contract it was called on is no longer the well-formed contract it was (same: {impl.get('recv_same')}, copy() afterwards: {impl.get('recv_usable')})", "witness": case}
         r = impl["ok"]
         bad = spec_wf(r)
         if bad:
